@@ -16,8 +16,10 @@ def parseTz : String → Option Bool
       `aware v`  → `makeAware v`
       `c18 v`    → `patch v | makeAware (patch v) | AllDates Normal v | AllDates AwareUtc v |
                     the milliseconds (UTC) of the datetimes of v in document order`
-      `aggpipe T|F v` → `aggPipeline tz v | AllDates (ReadForm tz) (aggPipeline tz v)`
-                    (what `Collection.aggregate` hands `process_pipeline` for the pipeline `v`)
+      `aggpipe T|F v` → `aggPipeline tz v | AllDates (ReadForm tz) (aggPipeline tz v) |
+                    AllDates (ReadForm tz) v`
+                    (what `Collection.aggregate` hands `process_pipeline` for the pipeline `v`; the
+                    last field ties the predicate `ReadForm` to the harness oracle on raw values)
       `cmpdate T|F stored literal` → for each of `$eq $ne $gt $gte $lt $lte`, separated by `|`:
                     `compareOp op (readDoc tz (patch stored)) (aggPipeline tz literal)` — an
                     expression comparison between a field holding `stored` and the value `literal`
@@ -43,7 +45,8 @@ def handleC18 (ts : List String) : Option (List String) :=
     match parseTz tz, parseVal r with
     | some t, some (v, []) =>
       some (showVal (aggPipeline t v) ++ ["|"]
-        ++ showBool (allDatesB (readFormB t) (aggPipeline t v)))
+        ++ showBool (allDatesB (readFormB t) (aggPipeline t v)) ++ ["|"]
+        ++ showBool (allDatesB (readFormB t) v))
     | _, _ => some ["?parse"]
   | "cmpdate" :: tz :: r =>
     match parseTz tz, parseVal r with
